@@ -1,9 +1,12 @@
 import FtdcVerif.Lemmas.Codec
+import FtdcVerif.Lemmas.EndToEnd
 /-!
 # C01 — structured round trip is lossless
 
 Layers, each for all inputs: unsigned varints, zero-run stream, wrapping deltas, leaf
-normalisation (bit-exact), document restoration from extracted values.  The timestamp clause
+normalisation (bit-exact), document restoration from extracted values, the BSON parser on the
+serialiser's output — and their composition `chunk_roundtrip`: the payload a collector writes
+for any sequence of documents of one schema decodes to exactly their projections.  The timestamp clause
 of the property is FALSE of the code as it is (known finding F1: an existing unit test pins the
 scaled starting value, so it cannot be repaired without editing the suite); the negation is
 proved below with the concrete witness that is replayed on the implementation.
@@ -81,7 +84,78 @@ theorem start_is_value_partial (key : Bytes) (v : BVal) (hts : ∀ t i, v ≠ .t
   | arr d => exact absurd rfl (ha d)
   | _ => simp [metricsVal, extractVal]
 
-/-! non-vacuity -/
+/-! ### the composition -/
+
+/-- the strict BSON parser (twin of `validateDocument`) reads back what is written -/
+theorem wire_document_roundtrip (d : BDoc) (hw : WFDoc d) (hl : (serDoc d).length < 2 ^ 31) :
+    parseDoc (serDoc d) = some d := parseDoc_serDoc d hw hl
+
+/-- a document of the reference document's schema (same keys, nesting, element types; any values,
+non-metric leaves included) is restored from ITS OWN values, not the reference's -/
+theorem restore_other_document (ref d : BDoc) (h : SimDoc ref d) (hd : DatesOk d) :
+    restoreDoc ref (vals d) = project d := restoreDoc_sim ref d h hd
+
+/-- **End to end, for one chunk.**  For every document `d0` and every list `ds` of documents of
+`d0`'s schema (any tree of sub-documents and arrays, every leaf type, any values incl. int64
+extremes whose deltas wrap, any number of samples incl. none): the payload `getPayload` writes —
+reference document, counts, metric-major zero-run/varint delta stream — is decoded by the reader
+into a chunk whose structured documents are exactly `d0 :: ds` with the non-metric leaves
+removed, in order.  Hypotheses: the reference document is well-formed BSON below 2^31 bytes, datetimes
+are within the nanosecond range (the property's own domain), the counts fit their 32-bit fields,
+and there is no timestamp leaf (known finding F1, `timestamp_clause_false`). -/
+theorem chunk_roundtrip (d0 : BDoc) (ds : List BDoc)
+    (hw : WFDoc d0) (hl : (serDoc d0).length < 2 ^ 31) (hts : NoTs d0)
+    (hsim : ∀ d ∈ ds, SimDoc d0 d) (hd0 : DatesOk d0) (hds : ∀ d ∈ ds, DatesOk d)
+    (hnm : (vals d0).length < 2 ^ 32) (hn : ds.length < 2 ^ 32)
+    (hsz : (vals d0).length * ds.length < 2 ^ 64) :
+    ∃ c, decodePayload (payloadOf d0 (vals d0) (ds.map vals)) = .ok c ∧
+      c.structured = (d0 :: ds).map project := by
+  obtain ⟨c, hc, href, hrows⟩ := decode_payload d0 (ds.map vals) hw hl hts
+    (by intro r hr
+        obtain ⟨d, hd, rfl⟩ := List.mem_map.1 hr
+        exact (simDoc_length d0 d (hsim d hd)).symm)
+    hnm (by simpa using hn) (by simpa using hsz)
+  refine ⟨c, hc, ?_⟩
+  simp only [Chunk.structured, hrows, href, List.map_cons, List.map_map]
+  congr 1
+  · exact restore_extract d0 hd0
+  · apply List.map_congr_left
+    intro d hd
+    exact restoreDoc_sim d0 d (hsim d hd) (hds d hd)
+
+/-! non-vacuity: `{a: 5, s: "x", n: {b: <double>}}` followed by two more samples of that schema
+(the string leaf differs, which is allowed) meets every hypothesis of `chunk_roundtrip` -/
+example : ∃ c, decodePayload (payloadOf
+      (.cons [97] (.int64 5#64) (.cons [115] (.other 2 (le32 2 ++ [120] ++ [0]))
+        (.cons [110] (.doc (.cons [98] (.double 7#64) .nil)) .nil)))
+      (vals (.cons [97] (.int64 5#64) (.cons [115] (.other 2 (le32 2 ++ [120] ++ [0]))
+        (.cons [110] (.doc (.cons [98] (.double 7#64) .nil)) .nil))))
+      ([ .cons [97] (.int64 18446744073709551615#64) (.cons [115] (.other 2 (le32 2 ++ [121] ++ [0]))
+          (.cons [110] (.doc (.cons [98] (.double 0#64) .nil)) .nil)),
+         .cons [97] (.int64 9223372036854775807#64) (.cons [115] (.other 2 (le32 2 ++ [120] ++ [0]))
+          (.cons [110] (.doc (.cons [98] (.double 7#64) .nil)) .nil)) ].map vals)) = .ok c ∧
+    c.structured.length = 3 := by
+  have hstr : ∀ b : Nat, OtherOk 2 (le32 2 ++ [b] ++ [0]) := fun b =>
+    otherOk_string 2 (Or.inl rfl) [b] (by simp)
+  obtain ⟨c, h1, h2⟩ := chunk_roundtrip
+    (.cons [97] (.int64 5#64) (.cons [115] (.other 2 (le32 2 ++ [120] ++ [0]))
+      (.cons [110] (.doc (.cons [98] (.double 7#64) .nil)) .nil)))
+    [ .cons [97] (.int64 18446744073709551615#64) (.cons [115] (.other 2 (le32 2 ++ [121] ++ [0]))
+        (.cons [110] (.doc (.cons [98] (.double 0#64) .nil)) .nil)),
+      .cons [97] (.int64 9223372036854775807#64) (.cons [115] (.other 2 (le32 2 ++ [120] ++ [0]))
+        (.cons [110] (.doc (.cons [98] (.double 7#64) .nil)) .nil)) ]
+    (by
+      refine ⟨by intro b hb; simp at hb; omega, trivial, by intro b hb; simp at hb; omega, hstr 120,
+        by intro b hb; simp at hb; omega, ⟨⟨by intro b hb; simp at hb; omega, trivial, trivial⟩,
+          by simp [serDoc_length, serElems, serVal, le64, leN, BVal.tag]⟩, trivial⟩)
+    (by simp [serDoc_length, serElems, serVal, le32, le64, leN, BVal.tag])
+    (by simp [NoTs, NoTsVal])
+    (by intro d hd; simp at hd; rcases hd with rfl | rfl <;> simp [SimDoc, SimVal])
+    (by simp [DatesOk, DatesOkVal])
+    (by intro d hd; simp at hd; rcases hd with rfl | rfl <;> simp [DatesOk, DatesOkVal])
+    (by decide) (by decide) (by decide)
+  exact ⟨c, h1, by rw [h2]; rfl⟩
+
 example : DatesOk (.cons [100] (.datetime 1600000000000#64) (.cons [101] (.doc (.cons [102] (.int64 5#64) .nil)) .nil)) := by
   refine ⟨?_, ⟨trivial, trivial⟩, trivial⟩
   show InNanoRange _
